@@ -55,3 +55,96 @@ try_inline = Contract(
 )
 
 CONTRACTS = [try_inline, iter_sinks]
+
+
+# =================================================================================================
+# PlanEntityEmitter._apply_property_writes (K8 for entity conditions): whatever kind of entity it is — one with an
+# enable flag and a condition setter (lamp, inserter), one with a condition setter only (power switch, pump), one with a
+# bare control_behavior dict — the circuit condition written means `enable > 0`:
+#   type signal              ->  <the signal's resolved name>  >  0
+#   type inline_comparison   ->  <left signal>  CMP  <constant>      (exactly the inlined comparison)
+#   type inline_bundle_condition -> signal-everything / signal-anything  CMP  <constant>
+# and the entity is switched to circuit control.  Evaluated on the REAL method with recording stand-ins for the
+# draftsman entity classes (third-party; their setters are assumed to store their arguments): bounded.
+# =================================================================================================
+PEQ = "dsl_compiler/src/emission/entity_emitter.py::PlanEntityEmitter._apply_property_writes"
+
+
+class _EntFull:
+    def __init__(self):
+        self.circuit_enabled = False
+        self.cond = None
+
+    def set_circuit_condition(self, sig, cmp_, const):
+        self.cond = (sig, cmp_, const)
+
+
+class _EntSetterOnly:
+    def __init__(self):
+        self.cond = None
+
+    def set_circuit_condition(self, sig, cmp_, const):
+        self.cond = (sig, cmp_, const)
+
+
+class _EntBare:
+    pass
+
+
+def _condition_of(ent):
+    if hasattr(ent, "set_circuit_condition"):
+        # a draftsman entity with a condition setter exports ONLY what went through the setter (an ad-hoc control_behavior
+        # attribute is not part of its export format)
+        if ent.cond is None:
+            return None
+        sig, c, k = ent.cond
+        return (sig.get("name") if isinstance(sig, dict) else sig), c, k, (getattr(ent, "circuit_enabled", True) is True)
+    cb = getattr(ent, "control_behavior", None)
+    if isinstance(cb, dict) and "circuit_condition" in cb:
+        cc = cb["circuit_condition"]
+        return cc["first_signal"]["name"], cc["comparator"], cc["constant"], cb.get("circuit_enabled") is True
+    return None
+
+
+def _apw_post(a, res):
+    data = a.property_writes["enable"]
+    got = _condition_of(a.entity)
+    if got is None:
+        return False
+    name, cmp_, const, enabled = got
+    if data["type"] == "signal":
+        want = (data["_spec_expected_name"], ">", 0)
+    elif data["type"] == "inline_comparison":
+        cd = data["comparison_data"]
+        want = (cd["left_signal"], cd["comparator"], cd["right_constant"])
+    else:
+        want = (data["signal"], data["operator"], data["constant"])
+    return (name, cmp_, const) == want and enabled
+
+
+apply_writes = Contract(qualname=PEQ, params={"self": ty.TOpaque("emitter"), "entity": ty.TOpaque("entity"), "property_writes": ty.TOpaque("writes"),
+                                              "placement": ty.TOpaque("placement")},
+                        ensures=[("the condition written is the placement's comparison (signal > 0 / inlined comparison / bundle condition) and circuit control is on", _apw_post)],
+                        verify=False, properties=("C06",), note="evaluated on the real method with recording entity stand-ins (bounded stand-in)")
+CONTRACTS.append(apply_writes)
+
+
+def apply_writes_arg_sets():
+    from dsl_compiler.src.common.diagnostics import ProgramDiagnostics
+    from dsl_compiler.src.emission.entity_emitter import PlanEntityEmitter
+    from dsl_compiler.src.ir.nodes import SignalRef
+    out = []
+    maps = [({"__v1": {"name": "signal-C", "type": "virtual"}}, "__v1", "signal-C"), ({"signal-A": "signal-A"}, "signal-A", "signal-A"), ({}, "iron-plate", "iron-plate")]
+    for ent_cls in (_EntFull, _EntSetterOnly, _EntBare):
+        for m, key, name in maps:
+            out.append({"m": m, "ent": ent_cls, "writes": {"enable": {"type": "signal", "signal_ref": SignalRef(key, "src"), "_spec_expected_name": name}}, "name": name})
+        for cmp_ in ("<", "<=", ">", ">=", "=", "!="):
+            for k in (-3, 0, 7):
+                out.append({"m": {}, "ent": ent_cls, "writes": {"enable": {"type": "inline_comparison", "comparison_data": {"left_signal": "signal-A", "comparator": cmp_, "right_constant": k}}}, "name": None})
+        for sig in ("signal-everything", "signal-anything"):
+            out.append({"m": {}, "ent": ent_cls, "writes": {"enable": {"type": "inline_bundle_condition", "signal": sig, "operator": "<", "constant": 0}}, "name": None})
+    cases = []
+    for c in out:
+        em = PlanEntityEmitter(ProgramDiagnostics(log_level="error"), c["m"])
+        cases.append({"self": em, "entity": c["ent"](), "property_writes": c["writes"], "placement": None})
+    return cases
